@@ -29,7 +29,9 @@ SymCatalogue == [ap1  |-> <<"+", <<"n", "a">>, <<"i", 1>>>>,
                  amb  |-> <<"*", <<"n", "a">>, <<"n", "b">>>>,
                  argn |-> <<"a", "n">>,
                  argna |-> <<"+", <<"a", "n">>, <<"n", "a">>>>,
-                 argm |-> <<"a", "nosucharg">>]
+                 argm |-> <<"a", "nosucharg">>,
+                 argv |-> <<"a", "v">>,
+                 argvpa |-> <<"+", <<"a", "v">>, <<"n", "a">>>>]
 
 BIdent(n) == Base("ident", n, 0, NoExpr)
 BInt(k)   == Base("int", "", k, NoExpr)
